@@ -24,3 +24,18 @@ package encoding
 //@   ensures !res(JSON.String, 1, 1) && !res(JSON.Number, 1, 1) && res(JSON.Bool, 1, 1) ==> called(EncodeBoolAscending, 1) && sameslice(r, res(EncodeBoolAscending, 1, 0))
 //@   ensures !res(JSON.String, 1, 1) && !res(JSON.Number, 1, 1) && !res(JSON.Bool, 1, 1) && res(JSON.IsNull, 1, 0) ==> called(EncodeNullAscending, 1) && sameslice(r, res(EncodeNullAscending, 1, 0))
 //@   tags C17
+//@
+//@ // ===== C17: the field-value dispatch never mixes directions: a descending component is written by
+//@ // descending encoders only and an ascending one by ascending encoders only, and the slice returned is the
+//@ // one the chosen encoder returned
+//@ extern (client.NormalValue).* -> (r)
+//@   pure
+//@ func EncodeFieldValue -> (r)
+//@   ensures descending ==> !called(EncodeBoolAscending, 1) && !called(EncodeBoolAscending, 2) && !called(EncodeFloat32Ascending, 1) && !called(EncodeFloat32Ascending, 2) && !called(EncodeFloat64Ascending, 1) && !called(EncodeFloat64Ascending, 2) && !called(EncodeJSONAscending, 1) && !called(EncodeNullAscending, 1) && !called(EncodeStringAscending, 1) && !called(EncodeStringAscending, 2) && !called(EncodeTimeAscending, 1) && !called(EncodeTimeAscending, 2) && !called(EncodeVarintAscending, 1) && !called(EncodeVarintAscending, 2)
+//@   ensures !descending ==> !called(EncodeBoolDescending, 1) && !called(EncodeBoolDescending, 2) && !called(EncodeFloat32Descending, 1) && !called(EncodeFloat32Descending, 2) && !called(EncodeFloat64Descending, 1) && !called(EncodeFloat64Descending, 2) && !called(EncodeJSONDescending, 1) && !called(EncodeNullDescending, 1) && !called(EncodeStringDescending, 1) && !called(EncodeStringDescending, 2) && !called(EncodeTimeDescending, 1) && !called(EncodeTimeDescending, 2) && !called(EncodeVarintDescending, 1) && !called(EncodeVarintDescending, 2)
+//@   tags C17
+//@ func DecodeFieldValue -> (rest, v, err)
+//@   ensures descending ==> !called(DecodeBoolAscending, 1) && !called(DecodeBytesAscending, 1) && !called(DecodeFloat32Ascending, 1) && !called(DecodeFloat64Ascending, 1) && !called(DecodeJSONAscending, 1) && !called(DecodeTimeAscending, 1) && !called(DecodeVarintAscending, 1)
+//@   ensures !descending ==> !called(DecodeBoolDescending, 1) && !called(DecodeBytesDescending, 1) && !called(DecodeFloat32Descending, 1) && !called(DecodeFloat64Descending, 1) && !called(DecodeJSONDescending, 1) && !called(DecodeTimeDescending, 1) && !called(DecodeVarintDescending, 1)
+//@   assert before call#1 PeekType: sameslice(arg0, b)
+//@   tags C17
